@@ -29,7 +29,11 @@ CHECKS = {
              "store equals the described files for every geometry (C02_extraction_identical); no panic in the modelled components "
              "(C06_total, C09_reply). Tie: end-to-end runs of the composed real system under the paused clock (1-4 scripted peers, "
              "random segmentation/delays, late unchokes, disconnecting / corrupting extras, 16 KiB-scale geometries): every run must "
-             "complete, extract byte-identical files, start the extractor and not panic.",
+             "complete, extract byte-identical files, start the extractor and not panic. Second part: the per-connection transfer "
+             "statistics (Stats.v): C02_stats_exact (no panic, reports = mean of the last two intervals clamped to u32, for every "
+             "operation sequence whose interval totals fit u64, with and without overflow checks), tied by operation sequences with "
+             "boundary byte counts on the real Stats in debug and (thorough tier) release builds; a genuine defect (u32 sum overflow: "
+             "task panic / rate 0) was found and repaired.",
         note="Partial: termination under weak fairness follows from the variant + enabledness arguments only on paper; the fairness of "
              "tokio's scheduler, TCP, real timers and the terminal UI task are not modelled; the end-to-end runs are exploration, not proof. "
              "Two known findings (known_findings.json: sole-holder-idle-after-reserver-left, sole-holder-have-while-reserved): a sole holder "
@@ -266,7 +270,7 @@ PENDING_REASON = "not claimed yet: model, theorems and correspondence for this p
 
 
 def main():
-    commits = subprocess.run(["git", "-C", "/repo", "log", "--format=%h %s", "--grep=^verif hooks"],
+    commits = subprocess.run(["git", "-C", "/repo", "log", "--format=%h %s", "--grep=^verif hook"],
                              stdout=subprocess.PIPE).stdout.decode().strip().split("\n")
     m = {
         "version": 1,
